@@ -222,7 +222,7 @@ pub fn run(ctx: &Ctx, evidence: Option<&PathBuf>) -> i32 {
     let take_interned = match ctx.scale {
         Scale::Full => interned_names.len(),
         Scale::San => 40,
-        Scale::Miri => 3,
+        Scale::Miri => 2,
     };
     for n in interned_names.iter().take(take_interned) {
         dom.extend(case_variants(n, &mut rng));
@@ -267,7 +267,7 @@ pub fn run(ctx: &Ctx, evidence: Option<&PathBuf>) -> i32 {
         dom.push(format!("{}\u{0}", &base[..l - 1]));
         dom.push(format!("{}\u{ff}", &base[..l - 1]));
     }
-    for _ in 0..if ctx.scale == Scale::Full { 150 } else { 10 } {
+    for _ in 0..match ctx.scale { Scale::Full => 150, Scale::San => 10, Scale::Miri => 1 } {
         let l = rng.below(40);
         let s: String = (0..l).map(|_| (0x21 + rng.below(0x5e) as u8) as char).collect();
         dom.extend(case_variants(&s, &mut rng).into_iter().take(2));
